@@ -10,6 +10,13 @@
 
 namespace qw {
 
+// keys that land in ONE bucket chain of a small table (filled by the render world from the library's own hash function
+// before the first generation; empty = feature off)
+inline std::vector<std::string> &colliding_keys() {
+    static std::vector<std::string> k;
+    return k;
+}
+
 inline U32 A(const char *s) {
     U32 o;
     while (*s) o.push_back((char32_t)(unsigned char)*s++);
@@ -133,6 +140,12 @@ struct ValueGen {
             add("nest", nest);
         }
         {
+            // an object whose keys all collide: lookups walk a long chain (what a self-organising table would reorder)
+            Node coll = Node::mk(Node::Object);
+            for (auto &k : colliding_keys()) coll.get_or_add(A(k)) = scalar();
+            add("coll", coll);
+        }
+        {
             Node one = Node::mk(Node::Array); // exactly one item: loops over it can nest hundreds deep at linear cost
             one.items.push_back(scalar());
             add("one", one);
@@ -229,9 +242,9 @@ struct TemplateGen {
 
     // names as they are written in a tag: keys for object roots, positions for array roots
     std::string top(const char *key) {
-        static const char *order[] = {"name", "n1", "n2", "d1", "t", "f", "nul", "html", "zero", "msg", "list", "objs", "nest", "one"};
+        static const char *order[] = {"name", "n1", "n2", "d1", "t", "f", "nul", "html", "zero", "msg", "list", "objs", "nest", "coll", "one"};
         if (!root_is_array) return key;
-        for (size_t i = 0; i < 14; i++)
+        for (size_t i = 0; i < 15; i++)
             if (strcmp(order[i], key) == 0) return std::to_string(i);
         return "99";
     }
@@ -261,7 +274,14 @@ struct TemplateGen {
             case 6: return top("list") + "[" + std::to_string(r.below(4)) + "]";
             case 7: return top("objs") + "[" + std::to_string(r.below(3)) + "][name]";
             case 8: return top("nest") + "[g" + std::to_string(r.below(3)) + "][" + (r.chance(1, 2) ? "i0" : "0") + "]";
-            case 9: return "missing";
+            case 9:
+                if (!colliding_keys().empty() && r.chance(2, 3)) {
+                    auto &ck = colliding_keys();
+                    // mostly the keys at the far end of the chain
+                    size_t at = r.chance(2, 3) ? ck.size() - 1 - (size_t)r.below(3) : (size_t)r.below(ck.size());
+                    return top("coll") + "[" + ck[at] + "]";
+                }
+                return "missing";
             case 10: return top("nul");
             default: return top("zero");
         }
@@ -485,10 +505,16 @@ struct TemplateGen {
         }
         bool   outer_loop = r.chance(1, 2);
         if (outer_loop) {
-            s += std::string("<loop set=") + q + top("list") + q + " value=" + q + "a" + q + ">";
+            // the enclosing loop runs over an array or over an object (members: key and value slots are refreshed per round)
+            static const char *sets[] = {"list", "nest", "objs", "nest"};
+            std::string        set    = top(sets[r.below(4)]);
+            if (r.chance(1, 3) && set == top("objs")) set += "[0]";
+            s += std::string("<loop set=") + q + set + q + " value=" + q + "a" + q + ">";
             close = "</loop>";
         }
-        size_t n = 250 + (size_t)r.below(14);
+        // mostly beyond the 8-bit counters; one time in three a moderate depth (12..40), where scratch arrays sized for
+        // "typical" nesting have to grow in the middle of an enclosing iteration
+        size_t n = r.chance(1, 3) ? 12 + (size_t)r.below(29) : 250 + (size_t)r.below(14);
         int    wrappers = 0; // each wrapper loop multiplies the work by the size of the root: keep the product small
         bool   all_loops = r.chance(1, 2); // loops over a one-item list: the loop depth itself passes 255
         for (size_t i = 0; i < n; i++) {
@@ -615,7 +641,7 @@ struct TemplateGen {
         if (r.chance(1, 30)) return plain_document();
         if (r.chance(1, 12)) return soup_document();
         if (r.chance(1, 12)) return misnested_document();
-        if (r.chance(1, 50)) return text() + deep_document() + text();
+        if (r.chance(1, 40)) return text() + deep_document() + text();
         if (r.chance(1, 50)) return text() + many_subtags_document() + text();
         return block(depth);
     }
